@@ -131,6 +131,9 @@ def module_tracked():
     t = TrackedDfg(Q, Q, track_inputs=True)
     t.add(cust("h", [Q], [Q])(0))
     t.add(cust("cx", [Q, Q], [Q, Q])(0, 1))
+    k = t.load(val.TRUE)
+    t.add(cust("ctrl", [B, Q], [B, Q])(k, 0))      # an explicit wire BEFORE a tracked index: index 0 is rebound to output 1
+    t.add(cust("h2", [Q], [Q])(0))
     t.set_tracked_outputs()
     f = m.define_function("main", [Q, Q])
     n = f.insert_nested(t, *f.inputs())
